@@ -14,7 +14,8 @@ A shape table is a list of nodes {"t": leaf|tuple|named|tstruct, "kind", "res", 
 child indices, node 1 = root), exactly as in spec/SysData.tla."""
 import argparse, hashlib, json, os, random, re, sys
 
-RES_KINDS = ["Read", "Write", "ReadExpect", "WriteExpect", "OptRead", "OptWrite"]
+RES_KINDS = ["Read", "Write", "ReadExpect", "WriteExpect", "OptRead", "OptWrite", "ReadH", "WriteH"]
+H_KINDS = ("ReadH", "WriteH")     # Read / Write with the zoo's custom SetupHandler Hc<companion>
 NO_KINDS = ["Unit", "Phantom"]
 ALL_KINDS = RES_KINDS + NO_KINDS
 DEF_KINDS = ("Read", "Write")
@@ -23,17 +24,19 @@ NCONC = 26
 
 
 # ------------------------------------------------------------------ shape tables (mirror of Leaf / Compose)
-def leaf(kind, res=0):
-    return [{"t": "leaf", "kind": kind, "res": 0 if kind in NO_KINDS else res, "kids": []}]
+def leaf(kind, res=0, comp=0):
+    return [{"t": "leaf", "kind": kind, "res": 0 if kind in NO_KINDS else res,
+             "comp": comp if kind in H_KINDS else 0, "kids": []}]
 
 
 def compose(style, subs):
-    out = [{"t": style, "kind": "", "res": 0, "kids": []}]
+    out = [{"t": style, "kind": "", "res": 0, "comp": 0, "kids": []}]
     for s in subs:
         off = len(out)
         out[0]["kids"].append(off + 1)
         for nd in s:
-            out.append({"t": nd["t"], "kind": nd["kind"], "res": nd["res"], "kids": [k + off for k in nd["kids"]]})
+            out.append({"t": nd["t"], "kind": nd["kind"], "res": nd["res"], "comp": nd.get("comp", 0),
+                        "kids": [k + off for k in nd["kids"]]})
     return out
 
 
@@ -53,12 +56,12 @@ def depth(tb, n=1):
 
 
 def nres_of(tb):
-    return max([x["res"] for x in tb] + [0])
+    return max([x["res"] for x in tb] + [x.get("comp", 0) for x in tb] + [0])
 
 
 def norm(tb):
     """canonical key order (TLC prints record fields in its own order)"""
-    return [{"t": x["t"], "kind": x["kind"], "res": x["res"], "kids": list(x["kids"])} for x in tb]
+    return [{"t": x["t"], "kind": x["kind"], "res": x["res"], "comp": x.get("comp", 0), "kids": list(x["kids"])} for x in tb]
 
 
 # ------------------------------------------------------------------ TLC emission
@@ -80,27 +83,52 @@ def read_replay(path):
             g["runs"].append({"present": d["present"], "held": d["held"],
                               "exp": {"reads": d["reads"], "writes": d["writes"], "out": d["out"], "pres": d["pres"],
                                       "alive": d["alive"], "after": d["after"], "created": d["created"],
+                                      "calls": d.get("calls", []),
                                       "w1": [v != 0 for v in d["w1"]]}})
     return list(groups.values())
 
 
 # ------------------------------------------------------------------ shapes composed here (impl -> spec only)
 def rot_shape(n, rot, style="tuple"):
-    """arity n, member i = kind number (i + rot) mod 8 on resource i: every kind reaches every position
+    """arity n, member i = kind number (i + rot) mod 10 on resource i: every kind reaches every position
     of every arity, all resources distinct (so a dropped member is visible in every list)"""
-    return compose(style, [leaf(ALL_KINDS[(i + rot) % 8], i + 1) for i in range(n)])
+    return compose(style, [leaf(ALL_KINDS[(i + rot) % len(ALL_KINDS)], i + 1, (i + 1) % n + 1) for i in range(n)])
 
 
 def all_shape(n, which, phase=0):
     """arity n over n distinct resources, every member contributing to one list: a member dropped at ANY
     position of the n-tuple expansion changes reads() (which = "R"), writes() ("W") or setup ("D")"""
-    kinds = {"R": ["Read", "ReadExpect", "OptRead"], "W": ["Write", "WriteExpect", "OptWrite"], "D": ["Read", "Write"]}[which]
-    return compose("tuple", [leaf(kinds[(i + phase) % len(kinds)], i + 1) for i in range(n)])
+    kinds = {"R": ["Read", "ReadExpect", "OptRead"], "W": ["Write", "WriteExpect", "OptWrite"], "D": ["Read", "Write"],
+             "H": ["ReadH", "WriteH"]}[which]      # H: every member's custom handler must be called, whatever exists
+    return compose("tuple", [leaf(kinds[(i + phase) % len(kinds)], i + 1, (i + 1) % n + 1) for i in range(n)])
+
+
+def bare_shapes():
+    """derived structs (named and tuple flavour) with one member - first / middle / last - spelled as
+    a BARE TYPE PARAMETER `U: SystemData<'a>` and instantiated with a leaf, a tuple or another derived
+    struct; -> [(table, node indices to spell as bare parameters)]"""
+    out = []
+    insts = [leaf("Write", 3), leaf("OptRead", 3), leaf("ReadH", 3, 4),
+             compose("tuple", [leaf("Read", 3), leaf("Write", 4)]),
+             compose("named", [leaf("Write", 3), leaf("ReadExpect", 4)]),
+             compose("tstruct", [leaf("OptWrite", 3), compose("tuple", [leaf("Read", 4)])])]
+    for style in ("named", "tstruct"):
+        for pos in (0, 1, 2):
+            for inst in insts:
+                mem = [leaf("Read", 1), leaf("WriteExpect", 2), leaf("Read", 1)]
+                mem[pos] = inst
+                if pos != 1:
+                    mem[1] = leaf("Write", 2)
+                tb = compose(style, mem)
+                out.append((tb, {tb[0]["kids"][pos]}))
+    return out
 
 
 def rand_leaf(rng, nres, kinds=ALL_KINDS):
     k = rng.choice(kinds)
-    return leaf(k, rng.randint(1, nres))
+    r = rng.randint(1, nres)
+    c = rng.choice([x for x in range(1, nres + 1) if x != r] or [r])
+    return leaf(k, r, c)
 
 
 def rand_tree(rng, nres, d, maxmem, kinds=ALL_KINDS, pleaf=0.45):
@@ -112,7 +140,7 @@ def rand_tree(rng, nres, d, maxmem, kinds=ALL_KINDS, pleaf=0.45):
 
 def deep_shape(rng):
     nres = rng.randint(2, 4)
-    kinds = ALL_KINDS if rng.random() < 0.5 else ["Read", "ReadExpect", "OptRead", "OptWrite", "Write", "Unit", "Phantom", "Read", "OptRead"]
+    kinds = ALL_KINDS if rng.random() < 0.5 else ["Read", "ReadExpect", "OptRead", "OptWrite", "Write", "Unit", "Phantom", "Read", "OptRead", "ReadH"]
     while True:
         d = rng.choice([2, 3, 3])
         tb = compose(rng.choice(STYLES), [rand_tree(rng, nres, d - 1, 4, kinds, 0.35) for _ in range(rng.randint(1, 4))])
@@ -126,7 +154,7 @@ def wide_shape(rng):
     if mode < 0.35:       # distinct resources, random kinds: fetch succeeds when everything needed exists
         perm = list(range(1, n + 1))
         rng.shuffle(perm)
-        mem = [leaf(rng.choice(ALL_KINDS), perm[i]) for i in range(n)]
+        mem = [leaf(rng.choice(ALL_KINDS), perm[i], perm[(i + rng.randint(1, n - 1)) % n]) for i in range(n)]
     elif mode < 0.6:      # few resources, shared forms only (duplicates in reads())
         nres = rng.randint(2, 5)
         mem = [rand_leaf(rng, nres, ["Read", "ReadExpect", "OptRead", "Unit", "Phantom"]) for _ in range(n)]
@@ -144,13 +172,16 @@ PHANTOMS = ["u8", "str", "dyn Send", "&'a u8", "D0", "(Write<'a, D1>,)", "[u32]"
 
 
 class Spelling:
-    def __init__(self, rng, case_id, tb, nres_total):
+    def __init__(self, rng, case_id, tb, nres_total, bare_nodes=()):
         self.rng, self.cid, self.tb = rng, case_id, tb
+        self.bare_nodes = set(bare_nodes)
+        self.nbare = 0
         self.defs = []
         self.nstruct = 0
         self.normalised = 0
         used = sorted({x["res"] for x in tb if x["res"]})
-        need_default = {x["res"] for x in tb if x["kind"] in DEF_KINDS}
+        need_default = {x["res"] for x in tb if x["kind"] in DEF_KINDS or x["kind"] in H_KINDS} \
+            | {x["comp"] for x in tb if x["kind"] in H_KINDS}
         pool = list(range(max(4, nres_total) if nres_total <= 8 else NCONC))
         if len(pool) < nres_total:
             pool = list(range(NCONC))
@@ -180,6 +211,8 @@ class Spelling:
             return rng.choice(["ReadExpect<'a, %s>", "Read<'a, %s, PanicHandler>"]) % X
         if k == "WriteExpect":
             return rng.choice(["WriteExpect<'a, %s>", "Write<'a, %s, PanicHandler>"]) % X
+        if k in H_KINDS:
+            return ("Read" if k == "ReadH" else "Write") + "<'a, %s, Hc<%s>>" % (X, self.conc[x["comp"] - 1])
         if k == "OptRead":
             return rng.choice(["Option<Read<'a, %s>>", "Option<ReadExpect<'a, %s>>", "Option<Read<'a, %s, PanicHandler>>"]) % X
         if k == "OptWrite":
@@ -204,15 +237,29 @@ class Spelling:
         st0 = (rng.getstate(), self.nstruct, len(self.defs))
         name = "Z%d_%d" % (self.cid, self.nstruct)
         self.nstruct += 1
-        flavour = "plain" if force_plain else rng.choice(["plain", "plain", "tparam", "tparam_where", "lifetime", "both"])
+        flavour = "plain" if force_plain else rng.choice(["plain", "plain", "tparam", "tparam_where", "lifetime", "both",
+                                                          "bare", "bare_where", "bare_mix"])
         tparams, targs, lts, ltargs, fields = [], [], [], [], []
+        nbare = 0
         bounds_inline, bounds_where = [], []
         kids = [self.tb[k - 1] for k in x["kids"]]
         phantoms = [i for i, y in enumerate(kids) if y["t"] == "leaf" and y["kind"] == "Phantom"]
         lt_field = phantoms[0] if phantoms and flavour in ("lifetime", "both") else None
         for i, k in enumerate(x["kids"]):
             y = self.tb[k - 1]
-            if y["t"] == "leaf" and y["kind"] in RES_KINDS and flavour in ("tparam", "tparam_where", "both") \
+            if not force_plain and (k in self.bare_nodes or (flavour in ("bare", "bare_where", "bare_mix") and nbare < 3
+                                                             and rng.random() < 0.5)):
+                # the member's type is a bare type parameter U: SystemData<'a>, instantiated at the use site
+                p = "U%d" % nbare
+                nbare += 1
+                targs.append(self.ty(k))
+                if flavour == "bare_where" or (flavour == "bare_mix" and rng.random() < 0.5):
+                    bounds_inline.append(p)
+                    bounds_where.append("%s: SystemData<'a>" % p)
+                else:
+                    bounds_inline.append("%s: SystemData<'a>" % p)
+                fields.append(p)
+            elif y["t"] == "leaf" and y["kind"] in RES_KINDS and flavour in ("tparam", "tparam_where", "both", "bare_mix") \
                     and len(tparams) < 3 and rng.random() < 0.7:
                 p = "T%d" % len(tparams)
                 tparams.append(p)
@@ -254,6 +301,7 @@ class Spelling:
         gen = ", ".join(["'a"] + lts + bounds_inline)
         where = (" where " + ", ".join(bounds_where)) if bounds_where else ""
         vis = rng.choice(["pub ", ""])
+        self.nbare += nbare
         if x["t"] == "named":
             body = " {" + "".join(" %sf%d: %s," % (vis, i, f) for i, f in enumerate(fields)) + " }"
             self.defs.append("#[derive(SystemData)] pub struct %s<%s>%s%s" % (name, gen, where, body))
@@ -347,10 +395,10 @@ def generate(mc_files, arity_files, seed, n_mc, n_arity, n_rot, n_deep, n_wide, 
     rng = random.Random(seed)
     cases = []
 
-    def add(origin, tb, nres_shape, runs, extra):
+    def add(origin, tb, nres_shape, runs, extra, bare_nodes=()):
         cid = len(cases) + 1
         nres_total = nres_shape + (1 if nres_shape < NCONC and rng.random() < 0.8 else 0)
-        sp = Spelling(rng, cid, tb, nres_total)
+        sp = Spelling(rng, cid, tb, nres_total, bare_nodes)
         ty = sp.ty(1)
         runs2 = []
         for r in runs:
@@ -358,7 +406,7 @@ def generate(mc_files, arity_files, seed, n_mc, n_arity, n_rot, n_deep, n_wide, 
             runs2.append({"present": r["present"] + [rng.random() < 0.5 for _ in range(pad)],
                           "held": r["held"] + [0] * pad, "exp": r["exp"]})
         cases.append({"id": cid, "origin": origin, "ty": ty, "defs": sp.defs, "shape": tb, "nres": nres_total,
-                      "normalised": sp.normalised,
+                      "normalised": sp.normalised, "nbare": sp.nbare,
                       "conc": sp.conc, "runs": runs2, "extra": extra})
 
     mc = []
@@ -373,7 +421,7 @@ def generate(mc_files, arity_files, seed, n_mc, n_arity, n_rot, n_deep, n_wide, 
         add("mc", g["shape"], g["nres"], g["runs"], extra_mc)
     for g in select_arity(ar, n_arity, rng):
         add("mc-arity", g["shape"], g["nres"], g["runs"], extra_mc)
-    rots = [(n, r) for n in range(1, 27) for r in range(8)]
+    rots = [(n, r) for n in range(1, 27) for r in range(len(ALL_KINDS))]
     rng.shuffle(rots)
     if n_rot < len(rots):
         # every arity first
@@ -384,8 +432,11 @@ def generate(mc_files, arity_files, seed, n_mc, n_arity, n_rot, n_deep, n_wide, 
         rots = (list(first.values()) + rest)[:max(n_rot, 0)]
     # always: every arity with every member reading / writing / default-providing a resource of its own
     for n in range(1, 27):
-        for which in "RWD":
+        for which in "RWDH":
             add("gen-all", all_shape(n, which, rng.randint(0, 2)), n, [], extra_gen)
+    # always: derived structs with a bare type-parameter member (first / middle / last; leaf, tuple, struct)
+    for tb, bare in bare_shapes():
+        add("gen-bare", tb, nres_of(tb), [], extra_gen, bare)
     for n, r in rots:
         add("gen-rot", rot_shape(n, r, rng.choice(["tuple", "tuple", "named", "tstruct"])), n, [], extra_gen)
     for _ in range(n_deep):
@@ -429,6 +480,8 @@ def generate(mc_files, arity_files, seed, n_mc, n_arity, n_rot, n_deep, n_wide, 
     stats = {"types": len(cases), "units": len(out_units), "by_origin": by_origin, "emitted": n_emitted,
              "derived_structs": sum(len(c["defs"]) for c in cases),
              "structs_without_lifetime_turned_into_tuples": sum(c["normalised"] for c in cases),
+             "members_spelled_as_bare_type_parameter": sum(c["nbare"] for c in cases),
+             "custom_handler_leaves": sum(1 for c in cases for x in c["shape"] if x["kind"] in H_KINDS),
              "arities_present": arities,
              "arity_positions_covered": len({arity_np(c["shape"]) for c in cases if c["origin"] == "mc-arity"}),
              "max_depth": max([depth(c["shape"]) for c in cases] + [0]),
